@@ -22,7 +22,7 @@ def build_cases(tier, seed):
         prof = dict(PROFILE)
         prof["network"] = ["euclidean", "euclidean", "grid"][i % 3]
         ctrl = BUILTIN if i % 3 != 2 else hostile_stack(p=0.15, builtin=True)
-        cases.append(trace_case("C19", i, s, prof, ctrl, steps, ["C19"], opts=({"cosim_ops": {"every": 9, "kinds": ["scale_rate", "append_plugs"]}, "cosim_noops": 7} if i % 4 == 1 else {})))
+        cases.append(trace_case("C19", i, s, prof, ctrl, steps, ["C19"], opts=({"cosim_ops": {"every": 9, "kinds": ["scale_rate", "append_plugs"]}, "cosim_noops": 7} if i % 4 == 1 else {"inject_requests": {"every": 6, "public": False}} if i % 4 == 3 else {})))
     if tier == "thorough":
         for w in ("denver_downtown/denver_demo.yaml", "denver_downtown/denver_demo_fleets.yaml", "denver_downtown/denver_demo_constrained_charging.yaml"):
             cases.append(shipped_case("C19", w, 800, ["C19"], tag="b"))
